@@ -761,6 +761,9 @@ func (c *nctx) stmts(list []ast.Stmt, k func() string) string {
 	case *ast.SwitchStmt:
 		return c.switchStmt(s, next)
 	case *ast.ReturnStmt:
+		if c.stepRef != nil && len(s.Results) == 1 && c.w.text(s.Results[0]) == c.stepRef.Name()+".pointer" {
+			return "none  -- the walk ends at a leaf: not a step on an inner node\n"
+		}
 		if c.lcpMode {
 			if len(s.Results) == 1 {
 				r := unparen(s.Results[0])
@@ -1497,22 +1500,30 @@ func (w *world) genWalkStep(name string) string {
 		w.failAt(fd.Pos(), "node.go translator: %s: expected a final `return nil`", name)
 	}
 	body := loop.Body.List
-	if len(body) != 3 {
-		w.failAt(loop.Pos(), "node.go translator: %s: expected `kind := ref.tag; if kind == nodeKindLeaf { return ref.pointer }; switch kind { … }`", name)
-	}
-	as, ok := body[0].(*ast.AssignStmt)
-	if !ok || as.Tok != token.DEFINE || len(as.Lhs) != 1 || w.text(as.Rhs[0]) != c.stepRef.Name()+".tag" {
-		w.failAt(body[0].Pos(), "node.go translator: %s: expected `kind := %s.tag`", name, c.stepRef.Name())
-	}
-	c.stepKind = w.info.Defs[as.Lhs[0].(*ast.Ident)]
-	ifs, ok := body[1].(*ast.IfStmt)
-	if !ok || ifs.Else != nil || ifs.Init != nil || w.text(ifs.Cond) != c.stepKind.Name()+" == nodeKindLeaf" || len(ifs.Body.List) != 1 ||
-		w.text(ifs.Body.List[0]) != "return "+c.stepRef.Name()+".pointer" {
-		w.failAt(body[1].Pos(), "node.go translator: %s: expected `if kind == nodeKindLeaf { return ref.pointer }`", name)
-	}
-	sw, ok := body[2].(*ast.SwitchStmt)
-	if !ok {
-		w.failAt(body[2].Pos(), "node.go translator: %s: expected a switch on the kind", name)
+	var sw *ast.SwitchStmt
+	if len(body) == 1 {
+		// the leaf test folded into the switch: `switch ref.tag { case nodeKindLeaf: return ref.pointer; case nodeKind4: … }`
+		var ok bool
+		if sw, ok = body[0].(*ast.SwitchStmt); !ok || sw.Tag == nil || w.text(sw.Tag) != c.stepRef.Name()+".tag" {
+			w.failAt(loop.Pos(), "node.go translator: %s: expected `kind := ref.tag; if kind == nodeKindLeaf { return ref.pointer }; switch kind { … }` or a switch on ref.tag", name)
+		}
+	} else {
+		if len(body) != 3 {
+			w.failAt(loop.Pos(), "node.go translator: %s: expected `kind := ref.tag; if kind == nodeKindLeaf { return ref.pointer }; switch kind { … }`", name)
+		}
+		as, ok := body[0].(*ast.AssignStmt)
+		if !ok || as.Tok != token.DEFINE || len(as.Lhs) != 1 || w.text(as.Rhs[0]) != c.stepRef.Name()+".tag" {
+			w.failAt(body[0].Pos(), "node.go translator: %s: expected `kind := %s.tag`", name, c.stepRef.Name())
+		}
+		c.stepKind = w.info.Defs[as.Lhs[0].(*ast.Ident)]
+		ifs, ok := body[1].(*ast.IfStmt)
+		if !ok || ifs.Else != nil || ifs.Init != nil || w.text(ifs.Cond) != c.stepKind.Name()+" == nodeKindLeaf" || len(ifs.Body.List) != 1 ||
+			w.text(ifs.Body.List[0]) != "return "+c.stepRef.Name()+".pointer" {
+			w.failAt(body[1].Pos(), "node.go translator: %s: expected `if kind == nodeKindLeaf { return ref.pointer }`", name)
+		}
+		if sw, ok = body[2].(*ast.SwitchStmt); !ok {
+			w.failAt(body[2].Pos(), "node.go translator: %s: expected a switch on the kind", name)
+		}
 	}
 	c.used["tag"], c.used["nd"], c.used["E"], c.used["fuel"], c.used["loopFuel"] = 1, 1, 1, 1, 1
 	code := c.switchStmt(sw, func() string {
@@ -1588,7 +1599,28 @@ func (w *world) genPushStep(name string) string {
 	}
 	sw, ok := body[3].(*ast.SwitchStmt)
 	if !ok {
-		fail(body[3].Pos(), "a switch on n.tag")
+		// the per-class loops extracted into a helper: `q = pushAll(q, n)` with
+		// `func pushAll(q []nodeRef, n nodeRef) []nodeRef { switch n.tag { … }; return q }` – translate the helper's switch
+		if as, isAs := body[3].(*ast.AssignStmt); isAs && as.Tok == token.ASSIGN && len(as.Lhs) == 1 && len(as.Rhs) == 1 && w.text(as.Lhs[0]) == q {
+			if call, isCall := unparen(as.Rhs[0]).(*ast.CallExpr); isCall && len(call.Args) == 2 && w.text(call.Args[0]) == q && w.text(call.Args[1]) == nObj.Name() {
+				if fid, isId := unparen(call.Fun).(*ast.Ident); isId {
+					if hf, isFn := w.info.Uses[fid].(*types.Func); isFn && hf.Pkg() == w.pkg {
+						hd := w.findFunc(fid.Name, "")
+						if len(hd.Type.Params.List) == 2 && len(hd.Body.List) == 2 && len(hd.Type.Params.List[0].Names) == 1 && len(hd.Type.Params.List[1].Names) == 1 {
+							hq := w.info.Defs[hd.Type.Params.List[0].Names[0]]
+							hn := w.info.Defs[hd.Type.Params.List[1].Names[0]]
+							hsw, isSw := hd.Body.List[0].(*ast.SwitchStmt)
+							if isSw && w.text(hd.Body.List[1]) == "return "+hq.Name() && w.isNamed(hn.Type(), "nodeRef") {
+								sw, ok, qObj, nObj = hsw, true, hq, hn
+							}
+						}
+					}
+				}
+			}
+		}
+	}
+	if !ok {
+		fail(body[3].Pos(), "a switch on n.tag (or `q = helper(q, n)` with the switch in the helper)")
 	}
 	c.stepRef, c.refObj, c.dispatch = nil, nObj, true
 	c.used["tag"], c.used["nd"], c.used["E"], c.used["fuel"], c.used["loopFuel"] = 1, 1, 1, 1, 1
@@ -1810,9 +1842,20 @@ func genNodeOps(w *world) string {
 	for _, m := range order {
 		b.WriteString(w.genNodeMethod(m.recv, m.name) + "\n")
 	}
+	b.WriteString("end ArtVerif.Gen.NodeOps\n")
+	return b.String()
+}
+
+func genWalkOps(w *world) string {
+	var b strings.Builder
+	b.WriteString("-- GENERATED by tools/extract from /repo/tree.go — do not edit.\n")
+	b.WriteString("import ArtVerif.Model.GoNode\n")
+	b.WriteString("set_option linter.unusedVariables false\n")
+	b.WriteString("namespace ArtVerif.Gen.WalkOps\nopen ArtVerif ArtVerif.GoNode\nvariable {C : Type}\n\n")
+	b.WriteString("def loopFuel : Nat := 300\n\n")
 	b.WriteString("-- tree.go: one step of minimum() / maximum() on an inner node\n")
 	b.WriteString(w.genWalkStep("minimum") + "\n")
 	b.WriteString(w.genWalkStep("maximum") + "\n")
-	b.WriteString("end ArtVerif.Gen.NodeOps\n")
+	b.WriteString("end ArtVerif.Gen.WalkOps\n")
 	return b.String()
 }
